@@ -149,7 +149,16 @@ def states_agree(a, b, tol, near=None):
         sa, sb = segs(a), segs(b)
         if len(sa) != len(sb):
             return False
-        return all(k1 == k2 and abs(l1 - l2) <= tol and abs(h1 - h2) <= tol for (k1, l1, h1), (k2, l2, h2) in zip(sa, sb))
+
+        def same_end(k, u, w):
+            # equal up to rounding, or both inside the boundary band (an intersection with a nearly parallel edge is ill-conditioned:
+            # 1e-16 in a vertex moves it by 1e-16 / angle, always along the edge, i.e. inside the band)
+            if abs(u - w) <= tol:
+                return True
+            pu = (F(k), F(u)) if a[1] == 0 else (F(u), F(k))
+            pw = (F(k), F(w)) if a[1] == 0 else (F(w), F(k))
+            return near(pu) and near(pw)
+        return all(k1 == k2 and same_end(k1, l1, l2) and same_end(k1, h1, h2) for (k1, l1, h1), (k2, l2, h2) in zip(sa, sb))
     return True
 
 
